@@ -25,7 +25,7 @@ from typing import Any, Dict, List, Optional, Tuple
 
 logging.disable(logging.CRITICAL)
 
-from sim import faults, observe, structure  # noqa: E402
+from sim import faults, observe, structure, synth  # noqa: E402
 
 DEFAULT_RECURSION_LIMIT = 1000
 
@@ -151,6 +151,8 @@ class Session:
         return [canon[i] for i in perm]
 
     def source(self, cid: str) -> str:
+        if cid not in self.sources and synth.is_synthetic(cid):
+            self.sources[cid] = synth.source(cid) or ""
         if cid not in self.sources:
             with open(os.path.join(self.corpus, cid + ".teal"), encoding="utf-8") as f:
                 self.sources[cid] = f.read()
